@@ -250,6 +250,11 @@ def build_graph(rng, kind, nv=None, landmarks=True, noise=0.02, pert=0.05, info_
             return rand_spd(rng, n, cond=100.0)
         return np.eye(n)
     pairs = [(i, i + 1) for i in range(nv - 1)] + [(0, nv - 1)] + [tuple(sorted(rng.sample(range(nv), 2))) for _ in range(rng.randint(0, 2))]
+    if rng.random() < 0.6:      # the same pair measured from both ends (anti-parallel multi-edge), and a plain duplicate
+        a, b = pairs[rng.randrange(len(pairs))]
+        pairs.append((b, a))
+        if rng.random() < 0.5:
+            pairs.append((a, b))
     for (a, b) in pairs:
         z = truth[b] - truth[a]
         if noise:
